@@ -183,17 +183,15 @@ def subspecs_postorder(spec):
 # mechanism naming
 # --------------------------------------------------------------------------
 def _norm(v):
+    """comparison key for one value read in Python and in SQL: booleans as 0/1, floats /
+    Decimals rounded to 6 places (the Numeric result processor rounds to 10 digits, which
+    must not be mistaken for a divergence of the evaluator)"""
+    import decimal
+
     if isinstance(v, bool):
         return int(v)
-    if isinstance(v, float):
-        return round(v, 9)
-    try:
-        import decimal
-
-        if isinstance(v, decimal.Decimal):
-            return round(float(v), 9)
-    except Exception:
-        pass
+    if isinstance(v, (float, decimal.Decimal)):
+        return round(float(v), 6)
     return v
 
 
@@ -702,7 +700,7 @@ def run(ctx):
                     rig.run_case([("delete", crit, ())], sync, variant, "ret" if ci % 2 else "noret", rng)
         ctx.count("variants_done")
         # ---- part C: random trees, sequences -------------------------------
-        nrand = ctx.pick({"quick": 500, "thorough": 12000})
+        nrand = ctx.pick({"quick": 700, "thorough": 12000})
         evaluable = [a for a in full if a[0] not in ("between", "distinct", "like", "contains")]
         for k in range(nrand):
             if not ctx.budget_ok():
